@@ -249,6 +249,12 @@ type World struct {
 	TxM    *bitcoin_reader.TxManager
 	txDone chan error
 
+	// FD, if set (Engine F phase, instrumented build), schedules the node's goroutines statement by
+	// statement; Early is the per-step probability (per mille) of leaving them mid-call when the driver
+	// performs its next action.
+	FD    *core.FDriver
+	Early int
+
 	// NoDelay suppresses delivery delays (used while a handshake with its 3 s deadline is set up).
 	NoDelay bool
 
@@ -256,6 +262,26 @@ type World struct {
 	interrupt chan interface{}
 	opts      Options
 	start     time.Time
+}
+
+// StartF installs the Engine F scheduler for this run when the instrumented build is running (Engine F
+// phase); the returned function must be deferred. Call it before New.
+func StartF(c *core.Ctx) (*core.FDriver, func()) {
+	if !core.FAvailable() {
+		return nil, func() {}
+	}
+	fd := core.NewFDriver(c.T)
+	// a stalled goroutine resumes when nothing else can run: the node's own deadlines (3 s handshake,
+	// message handler warnings) are part of what the oracles judge, so stalls do not span simulated time
+	fd.HoldFor = 0
+	fd.S.Install()
+	return fd, func() {
+		fd.S.Off()
+		synctest.Wait()
+		fd.S.Uninstall()
+		c.SetInterleaving(fd.S.Hash(), fd.S.Steps())
+		c.FaultN("schedule:goroutine-stalled", fd.Holds)
+	}
 }
 
 // New builds the world inside the bubble.
@@ -420,6 +446,9 @@ func errShort(err error) string {
 
 // Settle waits until every goroutine is durably blocked, then lets the peers react.
 func (w *World) Settle() {
+	if w.FD != nil {
+		w.FD.Settle(w.Early, 1<<30)
+	}
 	synctest.Wait()
 	for _, p := range w.Peers {
 		w.react(p)
@@ -429,9 +458,19 @@ func (w *World) Settle() {
 
 // Pump delivers all pending peer bytes in tape-chosen chunks (fragmentation fault), letting the
 // system go quiescent and the peers react after every chunk, until nothing is pending.
-func (w *World) Pump() {
+func (w *World) Pump() { w.PumpChunks(-1) }
+
+// PumpChunks is Pump limited to max deliveries (max < 0: until nothing is pending); it returns with
+// bytes still pending when the limit is reached, so that the caller can act in the middle of a message.
+func (w *World) PumpChunks(max int) {
 	t := w.C.T
+	delivered := 0
 	for iter := 0; iter < 100000; iter++ {
+		if max >= 0 && delivered >= max {
+			w.Settle()
+			return
+		}
+		delivered++
 		w.Settle()
 		var cands []*Peer
 		for _, p := range w.Peers {
@@ -440,6 +479,21 @@ func (w *World) Pump() {
 			}
 		}
 		if len(cands) == 0 {
+			if w.FD != nil && w.Early > 0 {
+				// nothing left to deliver: run everything to rest before the caller looks at the state
+				e := w.Early
+				w.Early = 0
+				w.Settle()
+				w.Early = e
+				for _, p := range w.Peers {
+					if len(p.pending) > 0 {
+						cands = append(cands, p)
+					}
+				}
+				if len(cands) > 0 {
+					continue // the peers reacted to what the node did while settling
+				}
+			}
 			return
 		}
 		p := cands[t.Draw(len(cands))]
@@ -467,7 +521,7 @@ func (w *World) Pump() {
 		p.Conn.Deliver(chunk)
 		if !w.NoDelay && t.Chance(1, 8) {
 			d := time.Duration(1+t.Draw(2000)) * time.Millisecond
-			time.Sleep(d)
+			w.sleep(d)
 			w.C.AddSimTime(int64(d))
 			w.C.Fault("delivery-delay")
 		}
@@ -476,8 +530,19 @@ func (w *World) Pump() {
 }
 
 // Advance moves the fake clock forward; timers due fire and the system settles.
-func (w *World) Advance(d time.Duration) {
+// Sleep lets simulated time pass (pumping the Engine F scheduler when there is one).
+func (w *World) Sleep(d time.Duration) { w.sleep(d) }
+
+func (w *World) sleep(d time.Duration) {
+	if w.FD != nil {
+		w.FD.Advance(d) // the scheduler is pumped while the clock runs
+		return
+	}
 	time.Sleep(d)
+}
+
+func (w *World) Advance(d time.Duration) {
+	w.sleep(d)
 	w.C.AddSimTime(int64(d))
 	w.Settle()
 }
@@ -508,6 +573,10 @@ func (p *Peer) PongFor(nonce uint64) bool {
 // Shutdown ends the run: shutdown is signalled, connections die, and every goroutine must exit (the
 // bubble reports goroutines that stay blocked).
 func (w *World) Shutdown() {
+	if w.FD != nil {
+		w.FD.ReleaseAll()
+		w.Early = 0
+	}
 	close(w.interrupt)
 	for i := 0; i < 50; i++ {
 		w.Settle()
@@ -520,7 +589,7 @@ func (w *World) Shutdown() {
 		if all {
 			break
 		}
-		time.Sleep(10 * time.Second)
+		w.sleep(10 * time.Second)
 	}
 	for _, p := range w.Peers {
 		if !p.Returned {
@@ -529,6 +598,9 @@ func (w *World) Shutdown() {
 	}
 	if w.TxM != nil {
 		w.TxM.Stop(w.Ctx)
+		if w.FD != nil {
+			w.FD.Settle(0, 1<<30)
+		}
 		<-w.txDone
 	}
 	w.C.AddSimTime(0)
